@@ -318,7 +318,7 @@ theorem foldl_erase_self (l : List Bytes) (h : l.Nodup) : l.foldl (fun a ch => a
 /-- `Connection.connection_lost` -/
 theorem connectionLost_conn {s : State} {c : Nat} {x : Conn} (hx : s.conn c = some x) (hr : x.registered = true)
     (hnd : x.active.Nodup) :
-    (connectionLost s c).conn c = some { x with active := [], registered := false } := by
+    (connectionLost s c).conn c = some { x with active := [], registered := false, lostAs := some x.ak } := by
   unfold connectionLost
   rw [hx]
   simp only [hr, if_true]
@@ -342,7 +342,7 @@ theorem reg_connectionLost {s : State} (c : Nat) (h : Reg s) : Reg (connectionLo
       rw [foldl_erase_self _ (h.act_nodup c x hx)] at hc
       -- now set registered := false on a record whose active list is empty
       generalize (x.active.foldl (fun s ch => unsubscribe s c ch) _) = s2 at h2 hc ⊢
-      refine reg_of_fields c _ { x with active := [], registered := false } hc ?_ rfl ?_ h2.subs_nodup ?_ ?_ ?_ h2
+      refine reg_of_fields c _ { x with active := [], registered := false, lostAs := some x.ak } hc ?_ rfl ?_ h2.subs_nodup ?_ ?_ ?_ h2
       · intro d; simp only [upd_conn]
         by_cases hd : d = c
         · subst hd; simp [hc]
